@@ -29,6 +29,7 @@ def check(run):
     run.attempt(defaults, run, p)
     run.attempt(flagtable, run, p)
     run.attempt(applicable, run, p)
+    run.attempt(report, run, p)
     # what the command line leaves on disk is what the library decided: the detection output file (C06-OUTFILE)
     from .common import shared_rule
     from .c06 import outfile as _outfile
@@ -46,6 +47,72 @@ def check(run):
         if o.rule == 'C01-DATELANG':
             o.rule = 'C17-DATELANG'
     run.floors = [(('C17-DATELANG' if r == 'C01-DATELANG' else r), c, m) for r, c, m in run.floors]
+
+
+def report(run, p):
+    """the text tdda verify / detect print is the library's result"""
+    import re as _re
+    from ..pyeval import Interp, Obj, Model, Unsupported, Raised
+    run.rule('C17-REPORT', 'what tdda verify / tdda detect print is what the library returned: Verification.__str__, evaluated on results with '
+                           'passing, failing and mixed fields under every report mode (all / fields / records, with and without detection '
+                           'counts), prints the object\'s own totals, lists exactly the fields the mode calls for - each with its own counts '
+                           'and every one of its verdicts')
+    V = p.cls('Verification')
+    f = V.methods['__str__']
+    T = p.cls('TDDAObject')
+
+    class Det(Model):
+        n_passing_records = 40
+        n_failing_records = 2
+
+    def field(verdicts):
+        o = Obj(T)
+        o.items.update(verdicts)
+        o.attrs['passes'] = sum(1 for v in verdicts.values() if v)
+        o.attrs['failures'] = sum(1 for v in verdicts.values() if not v)
+        return o
+    results = {
+        'mixed': {'a': {'type': True, 'min': True, 'max': True}, 'b': {'type': True, 'min': False, 'sign': False}, 'c': {'type': True}},
+        'all-pass': {'a': {'type': True, 'min': True}, 'b': {'type': True}},
+        'all-fail': {'a': {'type': False}},
+        'no-fields': {},
+    }
+    n = 0
+    for rname, fields in results.items():
+        for rep in ('all', 'fields', 'records'):
+            for det in (None, Det()):
+                o = Obj(V)
+                fo = Obj(T)
+                fo.items.update({k: field(v) for k, v in fields.items()})
+                passes = sum(x.attrs['passes'] for x in fo.items.values())
+                failures = sum(x.attrs['failures'] for x in fo.items.values())
+                o.attrs.update(fields=fo, passes=passes, failures=failures, report=rep, ascii=True, detection=det, detect=bool(det))
+                try:
+                    text = Interp(p).call(f, [], selfobj=o)
+                except (Unsupported, Raised) as e:
+                    raise AnalysisError('Verification.__str__ is not evaluable: %s' % e)
+                n += 1
+                probs = []
+                if rep == 'records' and det is not None:
+                    want = ('Records passing: 40', 'Records failing: 2')
+                else:
+                    want = ('Constraints passing: %d' % passes, 'Constraints failing: %d' % failures)
+                for w in want:
+                    if w not in text:
+                        probs.append('does not say "%s"' % w)
+                listed = _re.findall(r'^(\w+): (\d+) failures?  (\d+) pass(?:es)?  (.*)$', text, _re.M)
+                should = [k for k, v in fields.items() if rep == 'all' or not all(v.values())]
+                if [x[0] for x in listed] != should:
+                    probs.append('lists fields %s, the mode calls for %s' % ([x[0] for x in listed], should))
+                for name, nf, np_, rest in listed:
+                    v = fields.get(name, {})
+                    if (int(nf), int(np_)) != (sum(1 for x in v.values() if not x), sum(1 for x in v.values() if x)):
+                        probs.append('field %s shown with %s failures / %s passes' % (name, nf, np_))
+                    if any(k not in rest for k in v):
+                        probs.append('field %s does not show all its verdicts' % name)
+                run.ob('C17-REPORT', '%s::%s::%s:%s:%s' % (f.rel, f.short, rname, rep, 'detection' if det else 'plain'), not probs,
+                       'result %s, report=%s%s: %s' % (rname, rep, ' with detection counts' if det else '', '; '.join(probs[:2]) or 'totals and fields as in the object'), fn=f)
+    run.floor('C17-REPORT', n, 24)
 
 
 def param_keys(f):
